@@ -93,6 +93,19 @@ theorem serialize_after_noop :
 end
 
 section
+open RbM
+open Tree Color
+
+/-- `Erase` gives every node of the tree back: nothing is lost or duplicated and the free list grows by exactly the
+erased elements (so `Used()` drops by that number) -/
+theorem eraseW_noAlias :
+    ∀ (w : World) (h : NoAlias w),
+    NoAlias (eraseW w) ∧ ids (eraseW w).focus = [] ∧
+    (eraseW w).gaps.length = w.gaps.length + (ids w.focus).length :=
+  @RbM.eraseW_noAlias
+end
+
+section
 open HbF
 
 /-- byte level: a complete file written by `Serialize` reads back as what was written -/
